@@ -64,27 +64,38 @@ def _sqlite(tmp, name):
 
 
 def gen_cfg(r, tier, idx):
-    algo = r.choice(ALGOS)
-    safe = r.random() < 0.5
-    maxsize = r.choice([1, 2, 3, 5, 10, 25] + ([40] if tier == 'thorough' else []))
-    purge = r.random() < 0.35
-    if r.random() < (0.2 if tier == 'quick' else 0.3):
-        backend = r.choice(DISK_BACKENDS)
+    # stratified: every block of 12 consecutive traces covers the 12 decorator classes; the
+    # block number walks through backend class x purge so that each decorator meets each of them
+    algo = ALGOS[idx % 6]
+    safe = (idx // 6) % 2 == 1
+    blk = idx // 12
+    purge = blk % 3 == 2
+    maxsize = r.choice([1, 2, 3, 3, 5, 10, 25] + ([40] if tier == 'thorough' else []))
+    bsel = blk % 5
+    if bsel in (0, 1, 2):
+        backend = 'dict'                      # cache + lossless in-memory archive
+    elif bsel == 3:
+        backend = r.choice(['plain', 'null', 'bare_dict'])
     else:
-        backend = r.choice(MEM_BACKENDS + ['dict', 'dict'])
+        backend = r.choice(DISK_BACKENDS)
     keymap = r.choice(KEYMAPS)
+    # un-keyable arguments: `hash` fails inside the keymap, `raw` yields an unhashable key
+    malformed = blk % 4 == 1
+    if malformed:
+        keymap = ['hash', 'raw'][(blk // 4) % 2]
     if backend in DISK_BACKENDS:
         keymap = r.choice(['string', 'md5', 'string_nonflat'])
-    nkeys = r.choice([3, 5, 8, 12])
+    # mostly more keys than slots, so that evictions and reloads happen
+    nkeys = r.choice([k for k in (3, 5, 8, 12) if k > maxsize] or [12]) if r.random() < 0.8 else r.choice([3, 5, 8, 12])
     if maxsize >= 25: nkeys = r.choice([12, 30, 45])
-    nops = r.choice([30, 120, 400] if backend in MEM_BACKENDS else [20, 60])
+    nops = r.choice([40, 120, 300] if backend not in DISK_BACKENDS else [20, 60])
     raising = sorted(r.sample(range(nkeys), r.choice([0, 0, 1, 2]))) if nkeys > 2 else []
     keyerr = [x for x in raising if r.random() < 0.3]
     return dict(algo=algo, safe=safe, maxsize=maxsize, purge=purge, backend=backend, keymap=keymap,
                 nkeys=nkeys, nops=nops, raising=raising, keyerr=keyerr,
-                pre_mem=r.choice([0, 0, 0, 2, maxsize + 2]) if backend != 'plain' or True else 0,
+                pre_mem=r.choice([0, 0, 0, 2, maxsize + 2]),
                 pre_arch=r.choice([0, 0, 3, maxsize + 3]),
-                malformed=r.random() < 0.25)
+                malformed=malformed)
 
 
 def gen_ops(r, cfg):
